@@ -14,7 +14,7 @@ use std::sync::{Arc, Mutex};
 
 /// A system under test for E2.
 pub trait Sut: Send + Sync + 'static {
-    type Op: Clone + Debug + PartialEq + Send + Sync + 'static;
+    type Op: Clone + Debug + PartialEq + Send + Sync + serde::Serialize + serde::de::DeserializeOwned + 'static;
     /// The operation menu after `hist` (simplest first).
     fn ops(&self, hist: &[Self::Op]) -> Vec<Self::Op>;
     /// Replay `hist` on fresh real objects and the reference model; compare
@@ -190,7 +190,7 @@ where
         rep.violations.push(Violation {
             signature: sig.clone(),
             what: format!("{}: {} (history {:?})", label, d.what, ops),
-            replay: json!({"engine": "statespace", "model": label, "ops": ops, "transcript": d.transcript, "detail": d.what}),
+            replay: json!({"engine": "statespace", "model": label, "ops": ops, "ops_json": serde_json::to_value(hist).unwrap_or(Value::Null), "transcript": d.transcript, "detail": d.what}),
         });
         rep.violation_counts.insert(sig.clone(), 1);
         rep.outcome(format!("VIOL|{}", sig));
@@ -200,4 +200,39 @@ where
 
 pub fn replay_value_ops(doc: &Value) -> Vec<String> {
     doc["ops"].as_array().map(|a| a.iter().map(|s| s.as_str().unwrap_or("").to_string()).collect()).unwrap_or_default()
+}
+
+
+/// `--replay` support for E2 checks: re-execute the recorded operation list
+/// twice on fresh real objects (no search engine involved) and print the
+/// step-by-step transcript. Exit code 0 conforms / 1 reproduced / 2 diverged.
+pub fn replay_cli<S: Sut>(property: &str, path: &str, doc: &Value, sut: &S) -> i32 {
+    let ops: Vec<S::Op> = match serde_json::from_value(doc["ops_json"].clone()) {
+        Ok(o) => o,
+        Err(e) => {
+            eprintln!("replay file has no usable ops_json: {}", e);
+            return 2;
+        }
+    };
+    println!("model {}: replaying {:?}", doc["model"], ops);
+    let r1 = guarded_replay(sut, &ops);
+    let r2 = guarded_replay(sut, &ops);
+    match (r1, r2) {
+        (Ok(a), Ok(b)) if a == b => {
+            println!("history conforms (state {})", a);
+            0
+        }
+        (Err(a), Err(b)) if a.transcript == b.transcript && a.signature == b.signature => {
+            for l in &a.transcript {
+                println!("  {}", l);
+            }
+            println!("{} [{}]", a.what, a.signature);
+            println!("VIOLATION property={} replay={}", property, path);
+            1
+        }
+        _ => {
+            eprintln!("replay diverged between two runs");
+            2
+        }
+    }
 }
